@@ -3,8 +3,12 @@ package transfer
 import (
 	"bytes"
 	"context"
+	"hash/crc32"
 	"io"
 	"net"
+	"os"
+	"os/exec"
+	"strings"
 	"sync"
 
 	"github.com/sheerbytes/sheerbytes/internal/verifkit"
@@ -60,3 +64,37 @@ func (v vConn) Close() error         { return v.c.Close() }
 
 var _ Conn = vConn{}
 var _ StreamIDer = (*verifkit.MemStream)(nil)
+
+func crc32cOf(b []byte) uint32 { return crc32.Checksum(b, crc32cTable) }
+
+func execCommand(name string, args ...string) *exec.Cmd { return exec.Command(name, args...) }
+
+func readLines(path string) []string {
+	data, err := os.ReadFile(path)
+	if err != nil {
+		return nil
+	}
+	var out []string
+	for _, l := range strings.Split(string(data), "\n") {
+		if l != "" {
+			out = append(out, l)
+		}
+	}
+	return out
+}
+
+func splitN(s, sep string, n int) []string { return strings.SplitN(s, sep, n) }
+func containsStr(s, sub string) bool       { return strings.Contains(s, sub) }
+
+// between returns the text after the first occurrence of a up to the next occurrence of b.
+func between(s, a, b string) string {
+	i := strings.Index(s, a)
+	if i < 0 {
+		return ""
+	}
+	s = s[i+len(a):]
+	if j := strings.Index(s, b); j >= 0 {
+		return s[:j]
+	}
+	return s
+}
